@@ -91,5 +91,6 @@ func checkC16(c *mc.Ctx) {
 		c.Ev.Class("race-pass-ran", 1)
 	}
 	c16CallMerges(c)
+	c16CallerPayload(c)
 	c.Ev.Require("race-pass-ran", "pool-operations-interleaved", "muxer-call-merges", "demuxer-call-merges")
 }
